@@ -335,7 +335,7 @@ class Contract:
     def __init__(self, qual, requires=(), ensures=(), modifies=(), result=None, loops=None, asserts=None,
                  types=None, tags=(), params=None, self_cls=None, setup=None, inline_calls=(), pure=False,
                  exc_ensures=None, havoc_locals=None, notes='', ghost_return=(), ghost_before=None, ledger_inv=(),
-                 msg_asserts=None, assumed=False, dead=(), ghost_after_assign=None, ghost_return_at=None):
+                 msg_asserts=None, assumed=False, dead=(), ghost_after_assign=None, ghost_return_at=None, dead_under=()):
         self.qual = qual
         self.tags = list(tags)
         self.requires = clauses(requires, tags)
@@ -356,6 +356,7 @@ class Contract:
         self.ghost_after_assign = dict(ghost_after_assign or {})   # local name -> [(path, expr)] ghost assignments after any assignment to it
         self.ghost_return_at = dict(ghost_return_at or {})         # 'return#k' -> [(path, expr)]
         self.dead = set(dead)                           # labels of paths expected to be infeasible under the precondition
+        self.dead_under = tuple(dead_under)             # ... or: returns lexically inside an `if` whose test mentions one of these snippets (robust to inserted returns)
         self.assumed = assumed                          # contract is assumed (not verified against the body)
 
 
@@ -448,9 +449,27 @@ class Engine:
             name = '%s~%d' % (base, k)
         self.obls.append(Ob(name, kind, fr.qual, tags, list(st.pc), goal, line, 'unsat', meta))
 
+    def lexically_under(self, fr, line, snippets):
+        """is the statement at `line` inside an `if` (or `elif`) whose test mentions one of the snippets?"""
+        if not snippets or fr.fi is None:
+            return False
+        if not hasattr(fr, 'parents'):
+            fr.parents = {}
+            for n in ast.walk(fr.fi.node):
+                for c in ast.iter_child_nodes(n):
+                    fr.parents[id(c)] = n
+        for n in ast.walk(fr.fi.node):
+            if isinstance(n, ast.Return) and n.lineno == line:
+                p, child = fr.parents.get(id(n)), n
+                while p is not None:
+                    if isinstance(p, ast.If) and child in p.body and any(sn in ast.unparse(p.test) for sn in snippets):
+                        return True
+                    p, child = fr.parents.get(id(p)), p
+        return False
+
     def cover(self, st, label, tags, line=0):
         fr = self.frames[0]
-        if fr.contract is not None and label in fr.contract.dead:
+        if fr.contract is not None and (label in fr.contract.dead or (label.startswith('return#') and self.lexically_under(fr, line, fr.contract.dead_under))):
             # expected-dead path: the obligation is that it is infeasible under the precondition
             self.obls.append(Ob('%s/dead[%s]' % (fr.qual, label), 'dead', fr.qual, tags, list(st.pc), z3.BoolVal(False), line, 'unsat'))
             return
